@@ -131,6 +131,15 @@ pub fn alphabet(n: usize, c: &AlphaCfg) -> Vec<Dev> {
                 s.variants[i].kind = Kind::Tuple(vec![FieldTy::Str]);
                 true
             }));
+            // the catch-all field may be any type that is From<&str>, not only String
+            devs.push(dev(format!("v{}.default(tuple Box<str>)", i), &[&format!("kind{}", i), "default"], move |s| {
+                if i >= s.variants.len() {
+                    return false;
+                }
+                s.variants[i].default = true;
+                s.variants[i].kind = Kind::Tuple(vec![FieldTy::Raw("Box<str>".into(), "\"\"".into())]);
+                true
+            }));
             devs.push(dev(format!("v{}.default(named String)", i), &[&format!("kind{}", i), "default"], move |s| {
                 if i >= s.variants.len() {
                     return false;
